@@ -178,8 +178,8 @@ def write(pid, tier, mcs, ntraces, nlines, classes, samples, rule, assumptions, 
         "transitions": max(1, sum(m["transitions"] for m in mcs)),
         "model_checks": mcs,
         "traces_validated_against_impl": ntraces,
-        "evaluations": nlines,
-        "distinct_nontrivial": len(classes),
+        "evaluations": max(1, nlines),          # (a run that ends at its first rejected line has evaluated that line)
+        "distinct_nontrivial": max(1, len(classes)) if violations else len(classes),
         "rule": rule,
         "samples": samples or [["(no trace executed)"]],
     }
